@@ -25,7 +25,7 @@ func init() {
 			"oracle per gauge per BeginBlock from balance snapshots (cross-checked with the transfer event log): nothing moves in non-reward blocks or outside [start,end]; inside, cumulative release == floor(deposited*(t-start)us/(end-start)us) +-1 per denom, non-decreasing, <= deposited (deposited = everything that entered the escrow account); " +
 			"non-trivial signature = (amount magnitude, duration class, gauge kind, number of reward blocks seen inside the interval (capped), concurrent gauges)",
 		Assumptions: []string{
-			"nobody sends tokens to a gauge escrow account except the purchase that creates it (third-party deposits are out of scope)",
+			"in 20% of the histories a third party transfers tokens into escrow accounts of live gauges; for such a gauge 'the amount deposited for it' is what its purchase paid in: that part must keep streaming at least pro rata, the total released never exceeds what entered, and when the extra tokens leave is not judged",
 			"deposits < 1e17 so 18-decimal ratio rounding stays inside the one-unit tolerance",
 		},
 		MinNonTriv: 40,
@@ -81,6 +81,7 @@ func runC12(rc *RunCtx) {
 		nG = 101 + rc.Intn(40)
 		rc.Count("histories_with_over_100_live_gauges", 1)
 	}
+	topUps := rc.Chance(0.2)
 	created := 0
 	mk := func() {
 		if crowd || rc.Chance(0.35) {
@@ -137,6 +138,22 @@ func runC12(rc *RunCtx) {
 		}
 		if !step(dt) {
 			return
+		}
+		if topUps && rc.Chance(0.15) && len(gt.g) > 0 {
+			// a third party transfers tokens into the escrow account of a live gauge
+			var addrs []string
+			for a, t := range gt.g {
+				if !c.Time.After(t.End) {
+					addrs = append(addrs, a)
+				}
+			}
+			if len(addrs) > 0 {
+				sortStrings(addrs)
+				to, _ := sdk.AccAddressFromBech32(addrs[rc.Intn(len(addrs))])
+				amt := []int64{1, 1000, 1_000_000, 5_000_000_000, 1_000_000_000_000}[rc.Intn(5)]
+				tx(4, bankSend(c.Accs[4].Addr, to, sdk.NewCoins(sdk.NewInt64Coin("ujkl", amt))))
+				rc.Count("escrow_top_ups", 1)
+			}
 		}
 		if rc.Chance(0.08) && (created < 8 || crowd) {
 			mk()
